@@ -576,6 +576,7 @@ theorem C16_reachable (s : Sys) (l : List Step)
         | accrue v d a => exact of_sc _ (env_same x _ (by intro u b a h; cases h))
         | donate a d n => exact of_sc _ (env_same x _ (by intro u b a h; cases h))
         | blockRedelegation v on => exact of_sc _ (env_same x _ (by intro u b a h; cases h))
+        | blockUndelegation v on => exact of_sc _ (env_same x _ (by intro u b a h; cases h))
         | oracle ok p => exact of_sc _ (env_same x _ (by intro u b a h; cases h))
         | swap ok p => exact of_sc _ (env_same x _ (by intro u b a h; cases h))
       | tx m =>
